@@ -12,7 +12,7 @@ files list it — `unmarked` (visible to `GlobalIndex::new`, index.rs `new_from_
 * `Prune`   — a running prune: its plan was computed from one read of index files + snapshots at plan time `pn`
               (`PrunePlan::from_prune_options`): `toDelete` ⊆ packs that were marked with `t + keep_delete ≤ pn` and
               hold no used blob (`decide_packs (true, 0, _)`), `toMark` = unmarked packs without used blob.
-* `Step`    — one storage-visible step of an actor or a clock tick.
+* `Step`    — one storage-visible step of an actor (backup, prune, forget) or a clock tick.
 -/
 import Rustic.Model.Repo
 namespace Rustic.Interleave
@@ -91,6 +91,8 @@ inductive Step
   /-- prune `j` removes a pack file of its plan -/
   | pruneRemove (j : Nat) (id : Nat)
   | pruneEnd (j : Nat)
+  /-- `forget`: the i-th visible snapshot file is removed (what only it used becomes unused for later plans) -/
+  | forget (i : Nat)
 deriving Repr, Inhabited
 
 def setAt {α} (l : List α) (i : Nat) (a : α) : List α := l.set i a
@@ -151,6 +153,7 @@ def step (s : St) : Step → Option St
         some { s with packs := s.packs.map (removePack id) }
       else none
   | .pruneEnd j => if j < s.prunes.length then some { s with prunes := s.prunes.eraseIdx j } else none
+  | .forget i => if i < s.snaps.length then some { s with snaps := s.snaps.eraseIdx i } else none
 
 def run (s : St) : List Step → Option St
   | [] => some s
